@@ -55,8 +55,34 @@ def rand_tree(rng, depth):
     return ('call', rand_tree(rng, depth - 1), [rand_tree(rng, depth - 1) for _ in range(rng.choice([0, 1, 2, 2, 3, 5, 12]))])
 
 
+def spell(n, rng):
+    """some spelling of the integer n: the shortest one plus an even number of zero digits — for zero, any number of them"""
+    if n == 0:
+        return "ㄱ" * rng.choice([1, 1, 2, 2, 3, 4, 5, 6])
+    return gen.enc(n) + "ㄱ" * (2 * rng.choice([0, 0, 1, 2, 3]))
+
+
+def render_spelled(t, rng):
+    """postfix text of a tree in which every number word (values, call arities, frame numbers, function indices) is
+    spelled at random among its spellings"""
+    k = t[0]
+    if k == 'lit': return spell(t[1], rng)
+    if k == 'call': return " ".join([render_spelled(a, rng) for a in t[2]] + [render_spelled(t[1], rng), "ㅎ" + spell(len(t[2]), rng)])
+    if k == 'def': return render_spelled(t[1], rng) + " ㅎ"
+    if k == 'arg': return render_spelled(t[1], rng) + " ㅇ" + spell(t[2], rng)
+    if k == 'fref': return spell(t[1], rng) + " ㅇ"
+    return gen.render(t)
+
+
 def cases(rng, tier):
     n = 1200 if tier == 'quick' else 40000
+    # every spelling of every number word, in every role: same tree (the model parser is the oracle)
+    for i in range(n // 3):
+        ts = [rand_tree(rng, rng.randint(0, 4)) for _ in range(rng.randint(1, 2))]
+        text = " ".join(render_spelled(t, rng) for t in ts)
+        if rng.random() < 0.4:
+            text = respell.respell(text, rng)
+        yield Case(program=text, tag='spelled', monitor='c09_parse', skip_model=True, nontrivial=True)
     for i in range(n):
         k = rng.random()
         if k < 0.45:      # trees printed in postfix, in random surface spellings, possibly multi-line
@@ -88,7 +114,7 @@ SPEC = {
     'lean': ['C09', 'C01'],
     'cases': cases,
     'stream': 'C09 parse stream (parse.parse trees with spans vs uhdrv parse)',
-    'rule': 'random trees (arity 0–12, depth ≤ 4) printed in postfix and re-spelled / split over lines; fuzz word '
+    'rule': 'random trees (arity 0–12, depth ≤ 4) printed in postfix and re-spelled / split over lines, also with every number word (value, arity, frame number, function index) in a random spelling (zero padding; zero in both parities); fuzz word '
             'sequences over the consonant alphabet (all malformed shapes); random characters. The implementation\'s trees '
             'with (line, start, end) of every node, or its syntax exception and location, must equal the model parser\'s; '
             'non-trivial = at least two words',
